@@ -131,6 +131,7 @@ type flowGen struct {
 	p     *flowProg
 	tries int
 	stats map[string]int
+	lastErr error
 	l     *loaded  // the axiom listing
 	rej   []string // sources of candidate programs the bounds checker rejected (scalar mode)
 }
@@ -339,10 +340,23 @@ func (g *flowGen) accepts(extra ...string) bool {
 	g.tries++
 	src := g.p.render(extra...)
 	_, err := g.fr.check(src)
-	if err != nil && g.p.Scalar && len(g.rej) < 6 && flowBoundsPhaseError(err) {
+	g.lastErr = err
+	if err != nil && g.p.Scalar && len(g.rej) < 8 && flowBoundsPhaseError(err) {
 		g.rej = append(g.rej, src)
 	}
 	return err == nil
+}
+
+// flowErrClass: a small stable word for a front-end error (for the histograms)
+func flowErrClass(err error) string {
+	s := err.Error()
+	for _, w := range []string{"cannot prove", "is not within bounds", "inconsistent with fact", "unreachable code",
+		"could not prove", "parse:", "tokenize", "internal error"} {
+		if strings.Contains(s, w) {
+			return strings.ReplaceAll(strings.TrimSuffix(w, ":"), " ", "-")
+		}
+	}
+	return "type-or-other"
 }
 
 // flowBoundsPhaseError: the program passed the type checker and was rejected by the
@@ -443,6 +457,9 @@ func (g *flowGen) try(kind string, lines ...string) bool {
 		return true
 	}
 	g.stats["gen:withdrawn:"+kind]++
+	if g.lastErr != nil && (strings.Contains(kind, "continue") || strings.Contains(kind, "break") || kind == "while") {
+		g.stats["gen:withdrawn-why:"+kind+":"+flowErrClass(g.lastErr)]++
+	}
 	return false
 }
 
@@ -515,6 +532,19 @@ func (g *flowGen) block(depth, budget int) {
 						g.try(jump+"-in-if", "if "+g.cond()+" {", jump, "}")
 					default:
 						g.try("change-in-loop", inval)
+					}
+				}
+				if counter != "" && g.rd.Chance(2, 3) {
+					// a jump where a loop condition is plainly false: must be rejected
+					// (inv `v <= K` after `v = K + 2`; post `v >= K` after `v = 0`)
+					guard := g.pick("args.n >= 0", "args.v <> 3", "args.n < 6", "this.f1 <> 77")
+					if g.rd.Chance(1, 2) {
+						g.try("continue-violating-inv", "if "+guard+" {", counter+" = "+lk+" + 2", "continue", "}")
+					} else {
+						g.try("break-violating-inv", "if "+guard+" {", counter+" = "+lk+" + 2", "break", "}")
+					}
+					if strings.Contains(head, ", post ") && g.rd.Chance(1, 2) {
+						g.try("break-violating-post", "if "+guard+" {", counter+" = 0", "break", "}")
 					}
 				}
 				g.block(depth+1, budget)
